@@ -159,6 +159,101 @@ def maybe_step(rng: random.Random, node: dict, schema: Schema, p: float) -> t.Tu
     return {"k": "step", "p": node, "s": s}, out
 
 
+def row_bound(p: dict, env: t.List[dict]) -> int:
+    """an upper bound on the number of rows of a program's result"""
+    k = p["k"]
+    if k == "base":
+        return len(env[p["i"]]["rows"])
+    if k == "step":
+        b = row_bound(p["p"], env)
+        return min(b, p["s"]["n"]) if p["s"]["k"] == "limit" else b
+    l, r = row_bound(p["l"], env), row_bound(p["r"], env)
+    if k == "setop" and p["m"] in ("intersect", "intersectAll", "exceptAll"):
+        return l
+    return l + r
+
+
+def total_order(rng: random.Random, schema: Schema) -> dict:
+    """orderBy over *all* columns: ties are identical rows, so a following limit keeps a determined bag"""
+    cols = [n for n, _ in schema]
+    rng.shuffle(cols)
+    keys = []
+    for c in cols:
+        desc = rng.random() < 0.4
+        keys.append({"name": c, "desc": desc, "nullsFirst": (not desc) if rng.random() < 0.6 else (rng.random() < 0.5)})
+    return {"k": "orderBy", "keys": keys}
+
+
+def ends_in(node: dict, kind: str) -> bool:
+    return node["k"] == "step" and node["s"]["k"] == kind
+
+
+FINAL_STATES = ["limit0", "limitSize", "limitBig", "orderBy", "orderByLimit", "distinct", "where", "select"]
+
+
+def final_state(rng: random.Random, node: dict, schema: Schema, env: t.List[dict], stats: dict) -> t.Tuple[dict, Schema]:
+    """leave an operand in a chosen last-operation state (the block a set operation finds open), with a determined bag:
+    limit 0 / limit >= size / limit over a total order; orderBy; distinct; where; select"""
+    st = rng.choice(FINAL_STATES)
+    stats["final_states"][st] = stats["final_states"].get(st, 0) + 1
+    step = lambda s: {"k": "step", "p": node, "s": s}  # noqa
+    if st == "limit0":
+        return step({"k": "limit", "n": 0}), schema
+    if st == "limitSize":
+        return step({"k": "limit", "n": row_bound(node, env)}), schema
+    if st == "limitBig":
+        return step({"k": "limit", "n": 50}), schema
+    if st in ("orderBy", "orderByLimit"):
+        if ends_in(node, "orderBy"):
+            return node, schema
+        node = step(total_order(rng, schema))
+        if st == "orderByLimit":
+            node = {"k": "step", "p": node, "s": {"k": "limit", "n": rng.choice([1, 2, 3])}}
+        return node, schema
+    if st == "distinct":
+        return step({"k": rng.choice(["distinct", "dropDuplicates"])}), schema
+    if st == "where":
+        return step(gen_where(rng, schema)), schema
+    s, out = gen_select(rng, schema)
+    return step(s), out
+
+
+def has_unordered_step(p: dict) -> bool:
+    """steps outside Prog.WF (limit / orderBy): compared with the specification, not covered by C07_prog"""
+    if p["k"] == "base":
+        return False
+    if p["k"] == "step":
+        return p["s"]["k"] in ("limit", "orderBy") or has_unordered_step(p["p"])
+    return has_unordered_step(p["l"]) or has_unordered_step(p["r"])
+
+
+def determined(p: dict, env: t.List[dict]) -> bool:
+    """every truncating limit sits directly on a total orderBy, is 0, or is not smaller than the operand can be"""
+    if p["k"] == "base":
+        return True
+    if p["k"] == "step":
+        s = p["s"]
+        if s["k"] == "limit" and s["n"] != 0 and s["n"] < row_bound(p["p"], env):
+            q = p["p"]
+            if not (q["k"] == "step" and q["s"]["k"] == "orderBy" and q["s"].get("keys") and len(q["s"]["keys"]) == n_cols(q["p"], env)):
+                return False
+        if s["k"] == "orderBy" and ends_in(p["p"], "orderBy"):
+            return False
+        return determined(p["p"], env)
+    return determined(p["l"], env) and determined(p["r"], env)
+
+
+def n_cols(p: dict, env: t.List[dict]) -> int:
+    k = p["k"]
+    if k == "base":
+        return len(env[p["i"]]["schema"])
+    if k == "step":
+        return len(p["s"]["items"]) if p["s"]["k"] == "select" else n_cols(p["p"], env)
+    if k == "byName" and p["am"]:
+        return -1  # not needed: an orderBy is only ever generated with the schema at hand
+    return n_cols(p["l"], env)
+
+
 def adapt(rng: random.Random, node: dict, schema: Schema, target: Schema) -> t.Tuple[dict, Schema]:
     """a select that gives `node` the target (name, type) list: re-ordering / renaming / filling with literals"""
     items = []
@@ -198,6 +293,11 @@ def gen_node(rng: random.Random, env: t.List[dict], depth: int, subs: t.List[t.T
     if has_setop(l) and has_setop(r) and rng.random() < 0.75:
         # most of the time avoid the (known) shared-set-operation-ancestor pattern so that it does not mask the rest
         r, rs = gen_node(rng, env, 0, subs, stats)
+    # operands in every final state, on either side
+    if rng.random() < 0.22:
+        l, ls = final_state(rng, l, ls, env, stats)
+    if rng.random() < 0.3:
+        r, rs = final_state(rng, r, rs, env, stats)
     op = rng.choice(METHODS + ["byName", "byName", "byNameMissing", "byNameMissing"])
     ltypes = [ty for _, ty in ls]
     if op in METHODS:
@@ -232,7 +332,10 @@ def gen_case(rng: random.Random, depth: int, stats: dict) -> dict:
     node, schema = gen_node(rng, env, depth, [], stats)
     if node["k"] != "step" and rng.random() < 0.7:
         node, schema = maybe_step(rng, node, schema, 1.0)  # "followed by a further where/select step"
-    return {"env": env, "prog": node}
+    c = {"env": env, "prog": node}
+    if has_unordered_step(node):
+        c["nowf"] = True  # contains limit / orderBy steps: outside Prog.WF, compared with the specification only
+    return c
 
 
 # ------------------------------------------------------------------------------------------------
@@ -249,6 +352,8 @@ def step_to_lean(s: dict) -> t.Any:
         return {"limit": {"n": s["n"]}}
     if s["k"] in ("distinct", "dropDuplicates"):  # dropDuplicates() without a subset is distinct()
         return "distinct"
+    if s["k"] == "orderBy":
+        return {"orderBy": {"keys": s["keys"]}}
     raise ValueError(s)
 
 
@@ -276,6 +381,8 @@ def show_step(s: dict) -> str:
         return f"limit({s['n']})"
     if s["k"] in ("distinct", "dropDuplicates"):
         return s["k"] + "()"
+    if s["k"] == "orderBy":
+        return "orderBy(" + ", ".join(f"{x['name']} {'desc' if x['desc'] else 'asc'} nulls {'first' if x['nullsFirst'] else 'last'}" for x in s["keys"]) + ")"
     return "select(" + ", ".join(f"{X.show(tuple_(e))}.alias({n!r})" for n, e in s["items"]) + ")"
 
 
@@ -361,6 +468,13 @@ def build(p: dict, bases: t.List[t.Any], memo: t.Dict[str, t.Any], F: t.Any) -> 
             df = src.distinct()
         elif s["k"] == "dropDuplicates":
             df = src.dropDuplicates()
+        elif s["k"] == "orderBy":
+            cols = []
+            for ok_ in s["keys"]:
+                c_ = F.col(ok_["name"])
+                d, nf = ok_["desc"], ok_["nullsFirst"]
+                cols.append(c_.asc() if (not d and nf) else c_.asc_nulls_last() if not d else c_.desc() if not nf else c_.desc_nulls_first())
+            df = src.orderBy(*cols)
         else:
             df = src.select(*[X.to_column(tuple_(e), F).alias(n) for n, e in s["items"]])
     elif k == "setop":
@@ -544,7 +658,7 @@ def shrink(c: dict, failing: t.Callable[[dict], bool], rounds: int = 25) -> dict
         if not cands:
             break
         res = evaluate(cands, workers=1)
-        nxt = next((r["case"] for r in res if (r["wf"] or best.get("nowf")) and failing(r)), None)
+        nxt = next((r["case"] for r in res if (r["wf"] or (best.get("nowf") and determined(r["case"]["prog"], r["case"]["env"]))) and failing(r)), None)
         if nxt is None:
             break
         best = nxt
@@ -654,7 +768,7 @@ def run(ctx: Ctx) -> None:
         gen_cov = {"gen_problems": f"not run: {type(e).__name__}: {str(e)[:200]}"}
         ctx.broken.append(f"translator vs running code: could not be exercised ({type(e).__name__}: {str(e)[:120]})")
 
-    stats: t.Dict[str, t.Any] = {"common": 0, "adapted": 0, "permuted": 0, "missing_cols": 0, "ops": {}}
+    stats: t.Dict[str, t.Any] = {"common": 0, "adapted": 0, "permuted": 0, "missing_cols": 0, "ops": {}, "final_states": {}}
     cases = cases_for(ctx, stats)
     res = evaluate(cases)
 
@@ -760,6 +874,8 @@ def run(ctx: Ctx) -> None:
             "right_operand_adapted_by_select": stats["adapted"],
             "byName_permuted_right": stats["permuted"],
             "byName_missing_columns": stats["missing_cols"],
+            "operand_final_states": stats["final_states"],
+            "cases_outside_the_theorem_scope_limit_orderBy": sum(1 for r in res if r["case"].get("nowf")),
             "cases_with_differently_cased_column_spellings": sum(1 for r in res if any(e.get("display") for e in r["case"]["env"])),
             "dedup_steps_after_set_operations": sum(show_prog(r["case"]["prog"]).count("distinct()") + show_prog(r["case"]["prog"]).count("dropDuplicates()") for r in res),
             "samples": [{"program": show_case(r["case"]), "result": r["impl"]} for r in res[:: max(1, len(res) // 4)][:4]],
